@@ -56,8 +56,34 @@ func c18Series(c c18Case) geometry.Series {
 	return geometry.NewLine(pts, c.Enc.Opts())
 }
 
+// c18Check verifies the series as constructed and again after Move: a moved series is a series,
+// and a translation by lattice amounts changes neither the segment rule nor convexity nor winding.
 func c18Check(c c18Case) fw.Outcome {
 	s := c18Series(c)
+	o := c18Verify(c, s)
+	if o.Fail != "" {
+		return o
+	}
+	moved := c
+	moved.Pts = make([]exact.P, len(c.Pts))
+	for i, p := range c.Pts {
+		moved.Pts[i] = exact.P{X: p.X + 3, Y: p.Y - 5}
+	}
+	dx, dy := adapt.F(3, c.Enc.Scale), adapt.F(-5, c.Enc.Scale)
+	var ms geometry.Series
+	if c.Closed {
+		ms = geometry.NewPoly(adapt.Pts(c.Pts, c.Enc.Scale), nil, c.Enc.Opts()).Move(dx, dy).Exterior
+	} else {
+		ms = geometry.NewLine(adapt.Pts(c.Pts, c.Enc.Scale), c.Enc.Opts()).Move(dx, dy)
+	}
+	if om := c18Verify(moved, ms); om.Fail != "" {
+		om.Fail = "after Move(3,-5 lattice units) of the series built from " + fmt.Sprint(c.Pts) + ": " + om.Fail
+		return om
+	}
+	return o
+}
+
+func c18Verify(c c18Case, s geometry.Series) fw.Outcome {
 	n := len(c.Pts)
 	var want []exact.Seg
 	if c.Closed {
